@@ -204,8 +204,10 @@ func (c *Code) UnmarshalText(data []byte) error {
 	// UnmarshalText.
 	if strings.HasPrefix(dataStr, "code_") {
 		dataStr = strings.TrimPrefix(dataStr, "code_")
-		code, err := strconv.ParseInt(dataStr, 10 /* base */, 64 /* bitsize */)
-		if err == nil && (code < int64(minCode) || code > int64(maxCode)) {
+		// A Code has 32 bits and no sign: anything else isn't the text form of a
+		// code, and mustn't wrap around into one.
+		code, err := strconv.ParseUint(dataStr, 10 /* base */, 32 /* bitsize */)
+		if err == nil && (code < uint64(minCode) || code > uint64(maxCode)) {
 			*c = Code(code)
 			return nil
 		}
